@@ -870,11 +870,11 @@ func NewTerminal(opts *Options, eventBox *util.EventBox, executor *util.Executor
 		renderer.HideCursor()
 	}
 	wordRubout := "[^\\pL\\pN][\\pL\\pN]"
-	wordNext := "[\\pL\\pN][^\\pL\\pN]|(.$)"
+	wordNext := "[\\pL\\pN][^\\pL\\pN]|((?s:.)$)"
 	if opts.FileWord {
 		sep := regexp.QuoteMeta(string(os.PathSeparator))
 		wordRubout = fmt.Sprintf("%s[^%s]", sep, sep)
-		wordNext = fmt.Sprintf("[^%s]%s|(.$)", sep, sep)
+		wordNext = fmt.Sprintf("[^%s]%s|((?s:.)$)", sep, sep)
 	}
 	keymapCopy := make(map[tui.Event][]*action)
 	for key, action := range opts.Keymap {
